@@ -146,7 +146,7 @@ class Gen(object):
         kind = st.choose(3, "destop")
         if kind == 0:
             n = 1 + st.choose(2, "n-add")
-            specs = [{"mask": masks[st.choose(len(masks), "mask")], "exc": st.choose(5, "exc-kind")}
+            specs = [{"mask": masks[st.choose(len(masks), "mask")], "exc": st.choose(6, "exc-kind")}
                      for _ in range(n)]
             return {"op": "destop", "add": specs}
         if kind == 1:
@@ -241,6 +241,8 @@ class Gen(object):
             if st.choose(2, "ratype"):
                 op["atype"] = st.pick(ACTION_TYPES[:3])
             op["start"] = self.fields()
+            if self.cfg.get("late_remote") and st.choose(3, "late") == 2:
+                op["late"] = True
         if kind == "task" and self.cfg.get("p_cancel", 0) and st.chance(self.cfg["p_cancel"], "cancel?"):
             op["cancel"] = st.choose(6, "cancel-at") * 0.0007
         op["body"] = self.body(depth + 1, False, in_action=False)
